@@ -9,8 +9,8 @@ LEVEL = "exploration"
 def configs(tier):
     if tier == "quick":
         return [dict(eager=False, salt=1, fine=False), dict(eager=True, salt=-1, fine=False)]
-    return [dict(eager=e, salt=s, fine=f) for e in (False, True) for s in (1, -1, 3)
-            for f in (False, True) if not (f and s == 3)]
+    return [dict(eager=False, salt=1, fine=True), dict(eager=True, salt=-1, fine=False),
+            dict(eager=False, salt=3, fine=False)]
 
 
 def _conformance(cov, harness, family, tier, jobs):
@@ -27,7 +27,7 @@ def _conformance(cov, harness, family, tier, jobs):
 
 def run(tier, seed, jobs, family=FAMILY, rule=None):
     cov, viol, harness = run_family(family, tier, configs(tier), jobs,
-                                    max_execs=20000 if tier == "quick" else 200000, seed=seed)
+                                    max_execs=20000 if tier == "quick" else 30000, seed=seed)
     cov["rule"] = rule or (
         "every program of the task-tree family (2-3 children from a menu of 10 behaviours, host "
         "tail, children spawning children, nested groups, spawn after cancel; cancel sources: "
